@@ -8,6 +8,7 @@
 //verif:cover VerifC09RenameRace creator-won-the-race rename-won-the-race
 //verif:cover VerifC09Rename bundles-moved labels-moved checksummed-store write-fault
 //verif:cover VerifC09DeleteEntries list-rewritten list-untouched
+//verif:cover VerifC09DeleteEntriesFaults delete-files-failed
 package core
 
 import (
@@ -378,4 +379,49 @@ func VerifC09DeleteEntries() {
 	}
 	vAssert(len(f.meta.data) == len(beforeM), "no-object-created")
 	vAssertSame(beforeV, f.vmeta, []string{"labels/"}, "labels-untouched")
+}
+
+// VerifC09DeleteEntriesFaults: deleting the files a and c from a repository whose bundle has two file lists, with one
+// transient fault at any store call: when the operation reports success every list holds exactly its remaining
+// entries; whatever it reports, no entry that was not named disappears.
+func VerifC09DeleteEntriesFaults() {
+	vBudget(300000000)
+	vUnwind(20000)
+	meta, vmeta := newVStore("meta"), newVStore("vmeta")
+	stores := vCtxStoresAll(meta, vmeta, newVStore("blob"))
+	vPutRepo(meta, "r")
+	l0, l1 := model.GetArchivePathToBundleFileList("r", vB1, 0), model.GetArchivePathToBundleFileList("r", vB1, 1)
+	meta.putRaw(l0, vYaml(model.BundleEntries{BundleEntries: []model.BundleEntry{{NameWithPath: "a", Hash: "h1", Size: 1}, {NameWithPath: "b", Hash: "h2", Size: 2}}}))
+	meta.putRaw(l1, vYaml(model.BundleEntries{BundleEntries: []model.BundleEntry{{NameWithPath: "c", Hash: "h3", Size: 3}, {NameWithPath: "d", Hash: "h4", Size: 4}}}))
+	meta.putRaw(model.GetArchivePathToBundle("r", vB1), vYaml(model.BundleDescriptor{ID: vB1, LeafSize: 64, Deduplication: "blake", BundleEntriesFileCount: 2, Message: "one"}))
+	cr := &vCrasher{stores: []*vStore{meta, vmeta}, allCalls: true, transient: true}
+	cr.crashAt = vInt("faultAt", 1, 30)
+	cr.install()
+	err := DeleteEntriesFromRepo("r", stores, []string{"a", "c"})
+	cr.revive()
+	vAssume(cr.crashed)
+	names := func(key string) (map[string]bool, bool) {
+		b, ok := meta.data[key]
+		if !ok {
+			return nil, false
+		}
+		var be model.BundleEntries
+		if yaml.Unmarshal(b, &be) != nil {
+			return nil, false
+		}
+		out := map[string]bool{}
+		for _, e := range be.BundleEntries {
+			out[e.NameWithPath] = true
+		}
+		return out, true
+	}
+	n0, ok0 := names(l0)
+	n1, ok1 := names(l1)
+	vAssert(ok0 && ok1, "every-file-list-still-exists-and-reads")
+	vAssert(n0["b"] && n1["d"], "no-entry-that-was-not-named-disappears")
+	if err != nil {
+		vCover("delete-files-failed")
+		return
+	}
+	vAssert(len(n0) == 1 && len(n1) == 1, "operation-that-reports-success-removed-every-named-path")
 }
